@@ -204,3 +204,14 @@ CHECKS["C11"] = {
     ],
     "deadline": {"quick": 200, "thorough": 2400},
 }
+
+CHECKS["C09"] = {
+    "level": "model_checking",
+    "assumptions": ["the model is the assembler's own listing of the current tree; instruction semantics are abstracted to taint transfer (unknown mnemonics: last operand written from all others)",
+                    "arm64 code cannot be executed here: its model is explored but not replayed against concrete traces",
+                    "micro-architectural timing below the instruction/address level is out of scope"],
+    "parts": [
+        {"name": "asm-taint", "cmd": ["python3", "{verif}/tools/asmtaint.py"]},
+        {"name": "asm-trace", "cmd": ["python3", "{verif}/tools/asmtrace.py"]},
+    ],
+}
